@@ -431,6 +431,7 @@ where
                     &tsig_rr,
                     now,
                     &mut context.response,
+                    &mut context.send_response,
                 ) {
                     Some(algorithm) => algorithm,
                     None => return,
@@ -443,6 +444,7 @@ where
                     &tsig_keys,
                     now,
                     &mut context.response,
+                    &mut context.send_response,
                 ) {
                     Some(key) => key,
                     None => return,
@@ -454,6 +456,7 @@ where
                     key,
                     now,
                     &mut context.response,
+                    &mut context.send_response,
                 ) {
                     return;
                 }
@@ -624,6 +627,25 @@ fn validate_opt(opt_rr: &ReadRr, raw_ttl: u32) -> Option<ExtendedRcode> {
 /// [RFC 8945 § 10]: https://datatracker.ietf.org/doc/html/rfc8945#section-10
 const TSIG_FUDGE: u16 = 300;
 
+/// Adds a TSIG RR to the response. If the RR does not fit within the
+/// response's size limit (this happens e.g. over UDP without EDNS when
+/// the question, key name, and algorithm name are all very long), then
+/// no acceptable response can be produced, since [RFC 8945 § 5.3]
+/// requires responses to TSIG requests to include a TSIG RR. In that
+/// case, `send_response` is cleared so that the request is dropped.
+///
+/// [RFC 8945 § 5.3]: https://datatracker.ietf.org/doc/html/rfc8945#section-5.3
+fn set_tsig_or_drop(
+    response: &mut Writer,
+    send_response: &mut bool,
+    mode: writer::TsigMode,
+    rr: PreparedTsigRr,
+) {
+    if response.set_tsig(mode, rr).is_err() {
+        *send_response = false;
+    }
+}
+
 /// Finds the [`Algorithm`] specified by a received TSIG RR. If the
 /// algorithm is not recognized, then a TSIG RR with error BADKEY is
 /// added to the response and the function returns `None`.
@@ -631,19 +653,20 @@ fn find_tsig_algorithm_or_write_error(
     tsig_rr: &ReadTsigRr,
     now: TimeSigned,
     response: &mut Writer,
+    send_response: &mut bool,
 ) -> Option<Algorithm> {
     if let Some(algorithm) = Algorithm::from_name(tsig_rr.algorithm()) {
         Some(algorithm)
     } else {
         response.set_rcode(Rcode::NOTAUTH);
-        response
-            .set_tsig(
-                writer::TsigMode::Unsigned {
-                    algorithm: tsig_rr.algorithm().to_owned(),
-                },
-                PreparedTsigRr::new_from_read(tsig_rr, now, TSIG_FUDGE, ExtendedRcode::BADKEY),
-            )
-            .unwrap();
+        set_tsig_or_drop(
+            response,
+            send_response,
+            writer::TsigMode::Unsigned {
+                algorithm: tsig_rr.algorithm().to_owned(),
+            },
+            PreparedTsigRr::new_from_read(tsig_rr, now, TSIG_FUDGE, ExtendedRcode::BADKEY),
+        );
         None
     }
 }
@@ -657,6 +680,7 @@ fn find_tsig_key_or_write_error<'k>(
     tsig_keys: &'k TsigKeyMap,
     now: TimeSigned,
     response: &mut Writer,
+    send_response: &mut bool,
 ) -> Option<&'k [u8]> {
     // We need to (a) find the key with the name specified by the
     // received TSIG RR, and (b) make sure that the algorithm associated
@@ -668,14 +692,14 @@ fn find_tsig_key_or_write_error<'k>(
         Some(key)
     } else {
         response.set_rcode(Rcode::NOTAUTH);
-        response
-            .set_tsig(
-                writer::TsigMode::Unsigned {
-                    algorithm: tsig_rr.algorithm().to_owned(),
-                },
-                PreparedTsigRr::new_from_read(tsig_rr, now, TSIG_FUDGE, ExtendedRcode::BADKEY),
-            )
-            .unwrap();
+        set_tsig_or_drop(
+            response,
+            send_response,
+            writer::TsigMode::Unsigned {
+                algorithm: tsig_rr.algorithm().to_owned(),
+            },
+            PreparedTsigRr::new_from_read(tsig_rr, now, TSIG_FUDGE, ExtendedRcode::BADKEY),
+        );
         None
     }
 }
@@ -694,6 +718,7 @@ fn verify_tsig_and_write_tsig_rr(
     key: &[u8],
     now: TimeSigned,
     response: &mut Writer,
+    send_response: &mut bool,
 ) -> bool {
     let (rcode, tsig_err, mode) =
         match tsig_rr.verify_request(message_without_tsig, algorithm, key, now) {
@@ -737,13 +762,13 @@ fn verify_tsig_and_write_tsig_rr(
         };
 
     response.set_rcode(rcode);
-    response
-        .set_tsig(
-            mode,
-            PreparedTsigRr::new_from_read(tsig_rr, now, TSIG_FUDGE, tsig_err),
-        )
-        .unwrap();
-    rcode == Rcode::NOERROR
+    set_tsig_or_drop(
+        response,
+        send_response,
+        mode,
+        PreparedTsigRr::new_from_read(tsig_rr, now, TSIG_FUDGE, tsig_err),
+    );
+    rcode == Rcode::NOERROR && *send_response
 }
 
 ////////////////////////////////////////////////////////////////////////
